@@ -57,6 +57,7 @@ def run(ctx):
     R2 = rep.rule('C06.R2', 'only successful reloads write: write <- reload_untyped(Ok arm) <- DepsGraph::reload <- run_update <- 3 update entry points', floor=6)
     R3 = rep.rule('C06.R3', 'at most once per pass: visited check precedes the push; only visit writes the order; run_update clears the change set', floor=4)
     R4 = rep.rule('C06.R4', 'entries start at NEVER / false; static entries report NEVER / false', floor=5)
+    S1 = rep.rule('C09.R3', 'the dependency graph is updated exactly on a successful reload (shared with C09, C05)', floor=2)
     for cfg, F in ctx.cfgs():
         hr = 'hot-reloading' in ctx.cfg_features[cfg]
         r4(R4, cfg, F, hr)
@@ -66,7 +67,11 @@ def run(ctx):
         r1(R1, cfg, F)
         r2(R2, cfg, F)
         r3(R3, cfg, F)
-        for r in (R1, R2, R3):
+        # precision also needs the dependency set to be re-learned at every successful reload: stale edges
+        # make a later notification of a dropped entry rewrite the asset although nothing it reads changed
+        from c09 import r3 as relearn
+        relearn(S1, cfg, F)
+        for r in (R1, R2, R3, S1):
             r.finish_cfg(cfg)
 
 
